@@ -77,7 +77,10 @@ Record job := mkJob {
   j_queue : Z; j_sched : Z; j_maxretry : Z; j_prio : Z;
   j_nt : Z;                             (* spec.networkTopology summary *)
   j_rest : Z }.                         (* every other spec field, opaque *)
-Record queue := mkQueue { q_name : Z; q_state : Z; q_parent : Z }.
+(* q_term: metadata.deletionTimestamp is set (the object is terminating but still
+   served by the lister / informer).  Neither QueueLister.Get nor GetQueuesByParent
+   looks at it, so no function below reads it: a terminating child is a child. *)
+Record queue := mkQueue { q_name : Z; q_state : Z; q_parent : Z; q_term : bool }.
 
 (* Kubernetes-library answers *)
 Record oracles := mkOracles {
